@@ -956,7 +956,6 @@ def _src_float(x):
 
 def run_ext_model(ctx, case):
     import elfi
-    rng = np.random.default_rng(case['seed'])
     bs = case['bs']
     op, template, sep = _make_ext_op(elfi, case)
     kwx = {k: _realise(x['t'], x['v']) for k, x in case['kw'].items()}
